@@ -1,9 +1,13 @@
 From SV Require Import Base.ListX Alloc.AllocModel Alloc.AllocStep Alloc.AllocRefine World.Env World.Join World.JoinProps
   World.World Checkers.Driver.
 From Coq Require Import Sorting.Sorted.
+From SV Require Import SaveLoad.Marker SaveLoad.SerDe SaveLoad.SerDeProps.
 From SV Require Import Props.C20.
 Check (C20_iteration_order_is_membership : forall s1 s2,
   (forall i, NS.mem i s1 = NS.mem i s2) -> NS.elements s1 = NS.elements s2).
 Check (C20_join_order_is_membership : forall e1 eids1 ms1 keys1 e2 eids2 ms2 keys2,
   jkeys e1 eids1 ms1 = Some keys1 -> jkeys e2 eids2 ms2 = Some keys2 ->
   (forall i, all_have e1 eids1 ms1 i = all_have e2 eids2 ms2 i) -> keys1 = keys2).
+Check (C20_serialisation_order_is_the_join_order : forall w nc d, serialize w nc = Some d ->
+  map fst d = map snd (join_marked w) /\
+  Sorted (fun a b : entity => fst a < fst b) (map fst (join_marked w))).
